@@ -2,6 +2,7 @@ package pbar
 
 import (
 	"io"
+	"sync"
 
 	"github.com/vbauerster/mpb/v8"
 	"github.com/vbauerster/mpb/v8/decor"
@@ -13,6 +14,8 @@ const (
 )
 
 type Container struct {
+	// mu guards the lazy creation of p: bars of one container are used from different goroutines
+	mu    sync.Mutex
 	p     *mpb.Progress
 	out   io.Writer
 	quiet bool
@@ -27,6 +30,8 @@ func NewContainer(out io.Writer, quiet bool) *Container {
 }
 
 func (c *Container) ensureProgress() {
+	c.mu.Lock()
+	defer c.mu.Unlock()
 	if c.p == nil {
 		c.p = mpb.New(mpb.WithOutput(c.out))
 	}
